@@ -55,6 +55,18 @@ Theorem del_keeps_collections : forall d p d',
 Proof. exact del_keeps_collections_l. Qed.
 Print Assumptions del_keeps_collections.
 
+(* filter(idx=mask, ...), the entry point that starts from a mask of the caller: a query - the dataset is unchanged -,
+   the answer selects only rows the caller's mask selects, without conditions it is that mask, a mask of the wrong
+   length is refused.  (That the caller's array itself is left alone is an observation of the correspondence.) *)
+Theorem filter_idx_spec : forall d idx cs,
+  (forall d', step all_off d (FilterIdx idx cs) = Some d' -> d' = d) /\
+  (forall r, filter_mask_from d idx cs = Some r ->
+     length idx = num_obs d /\ forall k, nth k r false = true -> nth k idx false = true) /\
+  (length idx = num_obs d -> filter_mask_from d idx [] = Some idx) /\
+  (length idx <> num_obs d -> filter_mask_from d idx cs = None).
+Proof. exact filter_idx_spec_l. Qed.
+Print Assumptions filter_idx_spec.
+
 (* the hypothesis of the two theorems is satisfiable: datasets built from operation lists are good *)
 Theorem built_datasets_are_good : forall ops, Forall arg_good ops -> Good (build ops).
 Proof. exact build_good. Qed.
